@@ -285,6 +285,15 @@ class CSSImportRule(cssrule.CSSRule):
                 # a malformed href (e.g. "//[") makes urlparse raise ValueError
                 fullhref = urljoin(parentHref, href)
 
+                # a sheet which is (being) imported by itself: do not load
+                # it again, the import chain would never end
+                sheet = self.parentStyleSheet
+                while sheet is not None:
+                    if sheet.href == fullhref:
+                        raise IOError('Import cycle, not loading again.')
+                    owner = sheet.ownerRule
+                    sheet = owner.parentStyleSheet if owner is not None else None
+
                 usedEncoding, enctype, cssText = \
                     self.parentStyleSheet._resolveImport(fullhref)
 
